@@ -34,6 +34,8 @@ func init() {
 			{ID: "C16-R10", Title: "HashKey is the payload itself: distinct values never share a set member or map key (shared with C15-R3)", Floor: 5, Run: c15r3},
 			{ID: "C16-R11", Title: "an in-place removal inside a loop over the same index ends the loop or steps back", Floor: 1, Run: removalInsideForwardLoop},
 			{ID: "C16-R12", Title: "the element storage of a container is never replaced by nil", Floor: 1, Run: containerStorageNeverNil},
+			{ID: "C16-R13", Title: "Equals is not short-circuited by comparing the types of two values", Floor: 1, Run: equalsNotShortCircuitedByType},
+			{ID: "C16-R14", Title: "subscripts go through Container.GetItem", Floor: 1, Run: subscriptGoesThroughGetItem},
 		},
 	})
 }
